@@ -462,7 +462,10 @@ ATTR_DOMAIN = {
     'ISARRAY': BOOL_TOKENS, 'PROPAGATED': BOOL_TOKENS,
     'OVERRIDABLE': BOOL_TOKENS, 'TOSUBCLASS': BOOL_TOKENS,
     'TOINSTANCE': BOOL_TOKENS, 'TRANSLATABLE': BOOL_TOKENS,
-    'NAME': ['', ' ', '\n', 'ä', 'a b', '1', 'x' * 300],
+    # (also the names of CIM-XML elements: a parameter may be called ERROR)
+    'NAME': ['', ' ', '\n', 'ä', 'a b', '1', 'x' * 300, 'ERROR',
+             'IRETURNVALUE', 'RETURNVALUE', 'PARAMVALUE', 'VALUE', 'INSTANCE',
+             'EnumerationContext', 'EndOfSequence'],
     'CLASSNAME': ['', ' ', 'ä', 'a.b', 'a:b', '1'],
     'REFERENCECLASS': ['', ' ', 'ä', '1'], 'SUPERCLASS': ['', ' ', 'ä'],
     'CLASSORIGIN': ['', ' ', 'ä'],
@@ -527,7 +530,32 @@ def domain_value(rng, attr, current=None):
 def directed_mutation(rng, et, els):
     """One attribute or one typed value made wrong in one specific way."""
     how = rng.choice(['attr', 'attr', 'attr-add', 'number', 'number',
-                      'embedded-attr', 'type-swap'])
+                      'embedded-attr', 'type-swap', 'name-collision'])
+    if how == 'name-collision':
+        # a parameter whose NAME is the name of an element that may stand at
+        # the same place (an output parameter may be called ERROR)
+        resp = [e for e in els if e.tag in ('METHODRESPONSE',
+                                            'IMETHODRESPONSE')]
+        if resp:
+            r = resp[0]
+            nm = rng.choice(['ERROR', 'IRETURNVALUE', 'RETURNVALUE',
+                             'PARAMVALUE', 'error', 'ReturnValue'])
+            pv = et.fromstring(rng.choice([
+                '<PARAMVALUE NAME="%s" PARAMTYPE="string"><VALUE>v</VALUE>'
+                '</PARAMVALUE>', '<PARAMVALUE NAME="%s"/>',
+                '<PARAMVALUE NAME="%s" PARAMTYPE="uint8"><VALUE>5</VALUE>'
+                '</PARAMVALUE>', '<PARAMVALUE NAME="%s"><INSTANCE '
+                'CLASSNAME="C"/></PARAMVALUE>']) % nm)
+            where = rng.choice(['first', 'replace-all', 'after-first'])
+            if where == 'replace-all':
+                for c in list(r):
+                    r.remove(c)
+                r.append(pv)
+            elif where == 'first' or len(r) == 0:
+                r.insert(0, pv)
+            else:
+                r.insert(1, pv)
+            return 'name-collision:%s.%s' % (nm, where)
     if how == 'attr':
         cands = [(e, a) for e in els for a in e.attrib if a in ATTR_DOMAIN]
         if cands:
